@@ -147,7 +147,10 @@ func TestDriver(t *testing.T) {
 		refusals[refusalClass(e)]++
 		res.Inc("refused_programs", 1)
 		if strings.Contains(e.Error(), "compiler panic") {
-			res.AddDrift(map[string]any{"kind": "compiler-panic-on-generated-program", "id": id, "error": e.Error(), "src": byID[id].u.Src})
+			// a Go panic escaping the compiler's API on a program of the claimed subset
+			res.Inc("compiler_panics", 1)
+			res.Violate(map[string]any{"kind": "compiler-panic", "construct": "generated-program"}, e.Error(),
+				map[string]any{"id": byID[id].c.ID, "source": byID[id].u.Src})
 		}
 	}
 	res.Stats["refusals_by_reason"] = refusals
@@ -248,9 +251,14 @@ func TestDriver(t *testing.T) {
 				minSrc = renderProg(mp, "min")
 			}
 		}
+		if minSrc == "" && p.c.Fam != "expr" {
+			// beyond the minimisation budget: one aggregate signature, the programs are counted
+			construct = "not-minimised"
+			res.Inc("failing_programs_not_minimised", 1)
+		}
 		sig := map[string]any{"kind": f.kind, "construct": construct}
 		k := fmt.Sprint(sig)
-		if seenSig[k] && len(res.Violations) > 12 {
+		if seenSig[k] {
 			continue
 		}
 		seenSig[k] = true
